@@ -5,6 +5,18 @@ ROOT = os.path.dirname(os.path.dirname(os.path.abspath(__file__)))
 ids = [json.loads(l)["id"] for l in open(os.path.join(ROOT, "properties.jsonl"))]
 
 CLAIMED = {
+ "C13": dict(
+   text="Lean 4 theorems over Model/IdToken.lean (IDToken / ImplicitIDToken / HybridIDToken.validate in code order, generate_id_token payload, create_half_hash): "
+        "nonce_mismatch_rejected, nonce_missing_rejected, client_mismatch_rejected, issuer_mismatch_rejected, expired_rejected, c_hash_missing_rejected "
+        "(all unconditional, every claim set / parameter set), at_hash_mismatch_is_collision and c_hash_mismatch_is_collision (acceptance with a different access "
+        "token / code = explicit half-hash collision, for any hash), half_hash_eq_spec (left half of the SHA-2 matched to the algorithm for the 12 algorithms). "
+        "Correspondence: the REAL provider grants issue the ID Token for all 6 response types × signing algorithms, the library's claims classes validate it under "
+        "each near-miss (nonce, access token, code, client, issuer, key) and clock offsets around exp ± leeway; create_half_hash, generate_id_token payload and "
+        "validate on perturbed claim sets are compared with the compiled model (SHA-2 native in Lean); nonce replay histories per client.",
+   note="Trusted: Lean kernel; signature verification is C01's subject (jwt.decode exercised with the right / a wrong key); general acceptance of provider tokens is shown by "
+        "correspondence + a kernel-checked instance, not by a universally quantified theorem; one known finding (code token / c_hash) listed in known_findings.json.",
+   technique="Lean 4 proof (mismatch ⇒ rejection; binding ⇒ half-hash collision) + differential correspondence with the real provider and claims classes",
+   design="§4 C13"),
  "C16": dict(
    text="Lean 4 theorems over Model/Jwk.lean: int_b64_roundtrip (∀ n>0, via the Base64 round trip and beNat∘minBE = id), rsa_members_minimal_length "
         "(no leading zero octet, ∀ n), ec_members_full_length / ec_coord_roundtrip / ec_coord_decodes_to_full_length (fixed width, ∀ n < 256^len), "
